@@ -620,6 +620,8 @@ def run_mgh(chk, path, cases=None):
                     known = S_C01A
             elif o['r_data'] != o['data'] or o['r_dtype'] != c['dt']:
                 pred = 'data or dtype differ'
+            elif len(o['r_zooms']) != (4 if len(shape) == 4 else 3):
+                pred = f"{len(o['r_zooms'])} zooms for a {len(shape)}-D volume"
             elif not same_f32(o['r_zooms'], o['zooms_before']):
                 pred = 'voxel sizes / TR differ'
             elif len(shape) == 4 and not same_f32(o['r_zooms'][3:], f32bits([c['tr']])):
